@@ -113,10 +113,10 @@ func (in inst[T]) weighted(w float64) inst[T] { in.weight = w; return in }
 // position of the first differing component (each level evaluates the order of
 // its tail up to three times: once for Eqv and once per direction of Less);
 // measured about 0.115 s per case at arity 21 with uniformly chosen positions,
-// halving with each arity below. Arities >= 14 therefore get an absolute case
-// target per shard that keeps a sub-check near 0.25 s (quick) / 8 s (thorough).
+// halving with each arity below. Arities >= 12 therefore get an absolute case
+// target per shard that keeps a sub-check near 0.15 s (quick) / 8 s (thorough).
 func tupleWeight(arity int) float64 {
-	if arity < 14 {
+	if arity < 12 {
 		return 0
 	}
 	// the cost is that of the deepest first difference explored (see firstDiffCap)
@@ -125,7 +125,7 @@ func tupleWeight(arity int) float64 {
 	for n := 21; n > arity; n-- {
 		cost /= 2
 	}
-	budget := 0.25
+	budget := 0.15
 	if kit.Thorough() {
 		budget = 8
 	}
@@ -338,12 +338,12 @@ func runLaws[T any](t *testing.T, in inst[T]) {
 		}
 	})
 
-	// secondary: a harness-side total order on the printed form; it breaks ties
-	// between values that the instance identifies but that print differently
-	// (equal keys with different ids, same instant in different zones, -0/+0)
-	// and frequently disagrees with the primary on non-ties.
-	secCmp := func(a, b T) int { return strings.Compare(d.show(a), d.show(b)) }
-	kit.Check(t, in.name+"/thenComparing", pairRule+" (override of non-trivial: the reference ties a,b and their printed forms differ, or the reference does not tie them and the secondary orders them the other way); law: tc := o.ThenComparing(sec), sec = harness order on the printed form: if !o.Eqv(a,b) then tc agrees with o (Less, Eqv, sign of Compare) else tc agrees with sec", opt, func(rt *rapid.T, rec *kit.Rec) {
+	// secondary: a harness-side total order, the *reverse* of the byte order of
+	// the printed form; it breaks ties between values that the instance identifies
+	// but that print differently (equal keys with different ids, same instant in
+	// different zones, -0/+0) and mostly disagrees with the primary on non-ties.
+	secCmp := func(a, b T) int { return strings.Compare(d.show(b), d.show(a)) }
+	kit.Check(t, in.name+"/thenComparing", pairRule+" (override of non-trivial: the reference ties a,b and their printed forms differ, or the reference does not tie them and the secondary orders them the other way); law: tc := o.ThenComparing(sec), sec = harness order (reversed byte order of the printed form): if !o.Eqv(a,b) then tc agrees with o (Less, Eqv, sign of Compare) else tc agrees with sec", opt, func(rt *rapid.T, rec *kit.Rec) {
 		a, b := drawPair(rt, d, rec, 5)
 		sc := secCmp(a, b)
 		r := d.ref(a, b)
